@@ -1,2 +1,4 @@
 import Dashu.Driver.Text
-def main (args : List String) : IO UInt32 := Dashu.Driver.runMain Dashu.Driver.Text.dispatch args
+import Dashu.Driver.TextSci
+def main (args : List String) : IO UInt32 :=
+  Dashu.Driver.runMain (fun W op a => (Dashu.Driver.Text.dispatch W op a).orElse fun _ => Dashu.Driver.TextSci.dispatch W op a) args
